@@ -17,7 +17,7 @@ type sided struct {
 	fn    *ast.FuncDecl
 	A, B  string // root parameter names (first and second operand of the derived function)
 	body  *ast.BlockStmt
-	defs  map[string]ast.Expr
+	defs  Defs
 	roots map[string]bool
 	ptyp  map[string]ast.Expr // parameter name -> type expression
 }
